@@ -360,3 +360,51 @@ Proof.
   split; [assumption|]. intro o. split; [apply Hsub|].
   intros [t Hc]. destruct (Hall _ _ Hc) as [H|H]; [assumption|]. exfalso. eapply Hq; eauto.
 Qed.
+
+(* ------------------------------------------------------------------ teardown_factory terminates *)
+Lemma run_from_app : forall c s a b, run_from c s (a ++ b) = run_from c (run_from c s a) b.
+Proof. intros. unfold run_from. apply fold_left_app. Qed.
+
+Lemma step_main_objects : forall c s, objects (step_main c s) = objects s.
+Proof. intros. unfold step_main. destruct (td s); simpl; try reflexivity. destruct (nth_error _ _); reflexivity. Qed.
+
+(* with no raising teardown_object, teardown_factory running alone finishes: from the for-line with index i it needs
+   2 * (number of remaining objects) + 1 steps *)
+Lemma main_alone_completes : forall c, (forall o, td_fails c o = false) ->
+  forall k s i, td s = TdFor i -> length (objects s) - i = k ->
+  td (run_from c s (repeat Main (2 * k + 1))) = TdDone.
+Proof.
+  intros c Hnf. induction k as [|k IH]; intros s i Ht Hk.
+  - simpl. unfold step_main. rewrite Ht. destruct (nth_error (objects s) i) eqn:E; [|reflexivity].
+    apply nth_error_lt in E. lia.
+  - replace (2 * S k + 1) with (2 + (2 * k + 1)) by lia. rewrite repeat_app, run_from_app.
+    assert (Hlt : i < length (objects s)) by lia.
+    destruct (nth_error (objects s) i) as [o|] eqn:E; [|apply nth_error_None in E; lia].
+    apply (IH _ (S i)).
+    + simpl. unfold step_main at 2. rewrite Ht, E. simpl. unfold step_main. simpl. rewrite Hnf. reflexivity.
+    + simpl. rewrite !step_main_objects. lia.
+Qed.
+
+Lemma teardown_completes : forall c sch, (forall o, td_fails c o = false) -> td (run c sch) = TdNotCalled ->
+  exists k, teardown_returns_after c (sch ++ repeat Main k).
+Proof.
+  intros c sch Hnf Ht.
+  (* find the first k at which the state is TdDone: k = 2 * length objects + 2; the step before is not Done *)
+  set (s0 := run c sch). assert (Ht' : td s0 = TdNotCalled) by exact Ht.
+  assert (H1 : td (step c s0 Main) = TdFor 0) by (simpl; unfold step_main; rewrite Ht'; reflexivity).
+  assert (Hdone : td (run_from c s0 (repeat Main (1 + (2 * length (objects s0) + 1)))) = TdDone).
+  { rewrite repeat_app, run_from_app. simpl repeat. apply (main_alone_completes c Hnf _ _ 0).
+    - exact H1.
+    - simpl. rewrite step_main_objects. lia. }
+  (* smallest prefix reaching Done *)
+  assert (Hex : forall n, td (run_from c s0 (repeat Main n)) = TdDone ->
+                exists k, td (run_from c s0 (repeat Main k)) <> TdDone /\ td (run_from c s0 (repeat Main (S k))) = TdDone).
+  { induction n as [|n IH]; intro Hn.
+    - simpl in Hn. congruence.
+    - destruct (td (run_from c s0 (repeat Main n))) eqn:E; try (exists n; split; [congruence|assumption]).
+      apply IH. reflexivity. }
+  destruct (Hex _ Hdone) as [k [Hk1 Hk2]]. exists k. unfold teardown_returns_after. unfold run in *.
+  rewrite <- app_assoc. rewrite !run_from_app. fold (run c sch). fold s0. split; [assumption|].
+  assert (Hr : repeat Main (S k) = repeat Main k ++ [Main]) by (clear; induction k; simpl; [reflexivity|]; f_equal; assumption).
+  rewrite Hr, run_from_app in Hk2. exact Hk2.
+Qed.
